@@ -3,6 +3,14 @@
 recorded cross detections), and every behaviour-preserving twin; print only what is not as expected."""
 import json, os, subprocess, sys, concurrent.futures as cf, tempfile, shutil
 VERIF = os.path.dirname(os.path.dirname(os.path.abspath(__file__)))
+
+
+def _copy(dst):
+    """scratch copy of the analysed parts of /repo's working tree (no git involved)"""
+    for sub in ("middleware", "docs", os.path.join("firmware", "src")):
+        shutil.copytree(os.path.join("/repo", sub), os.path.join(dst, sub), symlinks=True,
+                        ignore=shutil.ignore_patterns("__pycache__", "*.pyc"))
+
 prop = sys.argv[1]; verbose = "-v" in sys.argv
 SD = os.path.join(VERIF, "seeded"); BD = os.path.join(VERIF, "selftest", "benign")
 items = [("base", "base", None)]
@@ -23,14 +31,13 @@ def run_one(it):
         return it, o.returncode, o.stdout
     wt = tempfile.mkdtemp(prefix=f"rg-{name}-", dir="/tmp"); os.rmdir(wt)
     try:
-        subprocess.check_call(["git", "-C", "/repo", "worktree", "add", "--detach", "-q", wt, "HEAD"], stdout=subprocess.DEVNULL, stderr=subprocess.DEVNULL)
-        r = subprocess.run(["git", "-C", wt, "apply", patch], capture_output=True, text=True)
+        _copy(wt)
+        r = subprocess.run(["git", "apply", "--whitespace=nowarn", patch], capture_output=True, text=True, cwd=wt)
         if r.returncode != 0: return it, -1, r.stderr
         o = subprocess.run(["/venv/bin/python", os.path.join(VERIF, "check"), prop, "--repo", wt, "--quiet"], capture_output=True, text=True,
                            env=dict(os.environ, VERIF_SCRATCH_EVIDENCE=os.path.join(wt, ".ev")))
         return it, o.returncode, o.stdout
     finally:
-        subprocess.run(["git", "-C", "/repo", "worktree", "remove", "--force", wt], stdout=subprocess.DEVNULL, stderr=subprocess.DEVNULL)
         shutil.rmtree(wt, ignore_errors=True)
 bad = 0
 it0, rc0, out0 = run_one(items[0])
